@@ -53,6 +53,7 @@ type Model struct {
 	fieldTaint map[string]bool
 	ctorCode map[*ssa.Function]bool
 	validatorAccept map[string]bool
+	spawns []Spawn
 	la      *LockAnalysis
 
 	problems []string
